@@ -32,7 +32,7 @@ import importlib.util, sys
 sys.path.insert(0, H)
 from gscan import selftest as _st
 nm = sum(len(v.get('mutants', [])) for v in _st.VARIANTS.values())
-nr = sum(len(v.get('refactors', [])) for v in _st.VARIANTS.values()) + 6 * 20
+nr = sum(len(v.get('refactors', [])) for v in _st.VARIANTS.values()) + 7 * 20
 text = text.replace('@ENG@', f'{round(eng, -2):,}'.replace(',', ' ')).replace('@RUL@', f'{round(rul, -2):,}'.replace(',', ' '))
 text = text.replace('@NMUT@', str(nm)).replace('@NREF@', str(nr))
 open(os.path.join(H, 'DESIGN.md'), 'w').write(text)
